@@ -254,13 +254,17 @@ def parseItems (Q : Quirks) (rec : Parser) (c : Ctx) (t : Ty) (vs : List Val) : 
 def parseField (Q : Quirks) (rec : Parser) (c : Ctx) (t : Ty) (v : Val) : Out Res × Nat :=
   inCtx (enter Q c false c.mode) fun c' => rec c' t v
 
+/-- one declared field in `field_first_parse`: looked up among the data keys; absent → default None -/
+def ffItem (Q : Quirks) (rec : Parser) (c : Ctx) (kvs : List (Key × Val)) (ft : String × Ty) :
+    Out (String × Res) × Nat :=
+  match lookupKey (.str ft.1) kvs with
+  | none => (Out.ok (ft.1, Res.none), 0)
+  | some fv => mapOut (fun r => (ft.1, r)) (parseField Q rec c ft.2 fv)
+
 /-- field_first_parse (base.py:538-585): the declared fields in order; absent → default None -/
 def parseFF (Q : Quirks) (rec : Parser) (c : Ctx) (fields : List (String × Ty)) (kvs : List (Key × Val)) :
     Out (List (String × Res)) × Nat :=
-  seqM (fun (ft : String × Ty) =>
-    match lookupKey (.str ft.1) kvs with
-    | none => (Out.ok (ft.1, Res.none), 0)
-    | some fv => mapOut (fun r => (ft.1, r)) (parseField Q rec c ft.2 fv)) fields
+  seqM (ffItem Q rec c kvs) fields
 
 /-- a Python mapping holds every key once: later duplicates of a key (which only the list
 representation can express) are not items of the mapping -/
@@ -323,6 +327,13 @@ def parseUnion (Q : Quirks) (rec : Parser) (c : Ctx) (ts : List Ty) (v : Val) : 
   -- :414 stage 4: the context's own preferences
   unionStage Q rec c ts v c.mode f
 
+/-- `Options.make_context(cls=K, context=parent)` (options.py:219-262) → `RuntimeContext.__init__` without a route
+(:335-378): a context of the class' own options, one level below the parent (`parentDepth = 0`: no parent), refused
+with `DepthExceedError` when that level exceeds the class' `max_depth`. -/
+def classCtx (parentDepth : Nat) (cd : ClassDecl) : Out Ctx :=
+  if exceeded cd.maxDepth (parentDepth + 1) then .err { depth := true }
+  else .ok { depth := parentDepth + 1, mode := cd.mode, md := cd.maxDepth }
+
 /-- one layer of conversion: the value `v` is converted to the declared type `T` inside context `c`
 (the context of the enclosing field / element); `rec` converts the parts. -/
 def step (W : World) (Q : Quirks) (E : Env) (rec : Parser) (c : Ctx) (T : Ty) (v : Val) : Out Res × Nat :=
@@ -347,6 +358,7 @@ def step (W : World) (Q : Quirks) (E : Env) (rec : Parser) (c : Ctx) (T : Ty) (v
       match unwrapData c.mode v with
       | none => (.err {}, 0)
       | some v1 =>
+      -- the nested class' context: `classCtx c.depth cd` (Props: `step_data_classCtx`)
       if exceeded cd.maxDepth (c.depth + 1) then (.err { depth := true }, 0) else
       let c' : Ctx := { depth := c.depth + 1, mode := cd.mode, md := cd.maxDepth }
       -- cls.py:583-591: not a Mapping → `to_dict` under the class' own preferences
@@ -389,14 +401,22 @@ def parseTop (W : World) (Q : Quirks) (E : Env) (fuel : Nat) (viaTransform : Boo
   parse W Q E fuel { depth := d0, mode := Mode.lenient, md := none } (.data k) v
 
 /-- assignment to field `f` of an instance of class `k` (`inst.f = w`, `inst['f'] = w`, `inst.update(f=w)`, `|=`):
-`Schema.__field_setter__` / `__setitem__` (schema.py:322-372) build a *fresh* route-less context for the instance's
-class — `self.__parser__.make_context(force_error=True)`, no parent — and parse the value as that field
-(`field.parse_value`; an undeclared key goes through `parse_addition`).  `level` = the nesting level at which the
-instance was built in an earlier parse: the setter does not look at it. -/
+`Schema.__field_setter__` / `__setitem__` (schema.py:322-372) make a context for the instance's class **without a
+parent** — `self.__parser__.make_context(force_error=True)` — and parse the value as that field
+(`field.parse_value`); an undeclared key goes through `parse_addition` (ignored, or an error when additions are
+forbidden).  The result is the new value of the field.  `level` = the nesting level at which the instance was built in
+an earlier parse: the setter does not look at it (`Quirks.setterInherits` = a seeded variant that does). -/
 def parseAssign (W : World) (Q : Quirks) (E : Env) (fuel : Nat) (level : Nat) (k : Nat) (f : String) (w : Val) :
     Out Res × Nat :=
-  let d0 := if Q.setterInherits then level else 0
-  parse W Q E fuel { depth := d0, mode := Mode.lenient, md := none } (.data k) (.dict [(.str f, w)])
+  match E[k]? with
+  | none => (.err {}, 0)
+  | some cd =>
+    match classCtx (if Q.setterInherits then level else 0) cd with
+    | .err fl => (.err fl, 0)
+    | .ok c' =>
+      match cd.fields.lookup f with
+      | some t => parseField Q (parse W Q E fuel) c' t w
+      | none => if cd.mode.noLoss then (.err {}, 0) else (.ok .none, 0)
 
 /-! ### the property's own vocabulary -/
 
@@ -443,6 +463,34 @@ def withinK (E : Env) : Nat → List (Key × Res) → Bool
   | _, [] => true
   | n, (_, r) :: rs => within E n r && withinK E n rs
 end
+
+mutual
+/-- every data-class instance of a result with the level it sits at: `(class, level)`, the outermost instance of a
+result that starts `n` levels deep being level `n + 1`.  Plain recursion over the result tree — no reference to the
+parser or to its limit check. -/
+def levels : Nat → Res → List (Nat × Nat)
+  | _, .leaf _ => []
+  | _, .none => []
+  | n, .data k fs => (k, n + 1) :: levelsF (n + 1) fs
+  | n, .list rs => levelsL n rs
+  | n, .tuple rs => levelsL n rs
+  | n, .dict kvs => levelsK n kvs
+def levelsL : Nat → List Res → List (Nat × Nat)
+  | _, [] => []
+  | n, r :: rs => levels n r ++ levelsL n rs
+def levelsF : Nat → List (String × Res) → List (Nat × Nat)
+  | _, [] => []
+  | n, (_, r) :: rs => levels n r ++ levelsF n rs
+def levelsK : Nat → List (Key × Res) → List (Nat × Nat)
+  | _, [] => []
+  | n, (_, r) :: rs => levels n r ++ levelsK n rs
+end
+
+/-- **The property's reading of a per-class limit, written on the result alone**: every instance belongs to a declared
+class, and if that class declares `max_depth = m` (`m ≥ 1`; `0` means "no limit", options.py:374) the instance sits at
+level `≤ m`, levels counted from the root of the parse (root = 1). -/
+def Respects (E : Env) (n : Nat) (r : Res) : Prop :=
+  ∀ p ∈ levels n r, ∃ cd, E[p.1]? = some cd ∧ ∀ m, cd.maxDepth = some m → m ≠ 0 → p.2 ≤ m
 
 /-- the same declarations without any depth limit -/
 def unlimited (E : Env) : Env := E.map fun cd => { cd with maxDepth := none }
